@@ -98,6 +98,9 @@ func draw(kind string, seed, n int) []*genlab.ProgSpec {
 		g := rapid.Custom(func(t *rapid.T) *genlab.ProgSpec {
 			o := &im.GenOpts{Services: true, Defaults: true, Consts: true, Annotations: true, Recursive: true, MaxFiles: 3, Small: i%3 == 0}
 			o.Avoid = avoidSet()
+			if kind == "redact" {
+				o.RedactRate = 2
+			}
 			p := im.GenProgram(t, o)
 			return &genlab.ProgSpec{ID: fmt.Sprintf("p%d", i), Program: p, Opts: optsFor(t, kind)}
 		})
@@ -127,7 +130,15 @@ import (
 
 func TestMain(m *testing.M) { drv.Main(m) }
 
-func TestC01(t *testing.T)     { drv.C01(t) }
+func TestC01(t *testing.T)          { drv.C01(t) }
+func TestC01Invalid(t *testing.T)   { drv.C01Invalid(t) }
+func TestC01Static(t *testing.T)    { drv.C01Static(t) }
+func TestC01Accessors(t *testing.T) { drv.C01Accessors(t) }
+func TestC04(t *testing.T)          { drv.C04(t) }
+func TestC04Encode(t *testing.T)    { drv.C04Encode(t) }
+func TestC05(t *testing.T)          { drv.C05(t) }
+func TestC14(t *testing.T)          { drv.C14(t) }
+func TestC15(t *testing.T)          { drv.C15(t) }
 func TestReplay(t *testing.T)  { drv.Replay(t) }
 func TestRegress(t *testing.T) { drv.Regress(t) }
 `
